@@ -11,8 +11,9 @@
        overwrite: had opened for replacing) and what lies below; everything else keeps its
        node and bytes; a plain stop runs no deletion. *)
 From Coq Require Import String.
-From Trzsz Require Import Base.Bytes Model.Path Model.Fs Model.Names Model.Proc
-  Proofs.PathFs Proofs.Names Proofs.Stop Proofs.Proc Proofs.ProcInst Gen.Skel_stop Gen.Skel_pipeline.
+From Trzsz Require Import Base.Bytes Model.Path Model.Fs Model.Names Model.Proc Model.ProcFault
+  Proofs.PathFs Proofs.Names Proofs.Stop Proofs.Proc Proofs.ProcFault Proofs.ProcInst Gen.Skel_stop Gen.Skel_pipeline.
+From Trzsz Require Props.C11.
 
 (* (1) *)
 Theorem C10_stop_reaches_every_stage :
@@ -45,6 +46,17 @@ Proof.
         (conj (wf_net_terminates recv_net recv_net_wf) (wf_net_terminates hash_net hash_net_wf))).
 Qed.
 Print Assumptions C10_stop_bounded.
+
+(* ... and the stop error does reach the cancellation: a stage observes the stop as the failure of
+   the wire operation in front of which (1) puts the check (or of the read the stop wakes), i.e.
+   as the failing branch of an [IoE] of its skeleton; C11's fault theorem says that from any
+   reachable state in which such an operation fails the context is cancelled after at most
+   |error path| + 2 own steps of that goroutine (which can always move when its error path waits
+   for nobody), and then the bound above applies *)
+Theorem C10_stop_error_cancels :
+  C11.fault_follows send_net /\ C11.fault_follows recv_net /\ C11.fault_follows hash_net.
+Proof. exact C11.C11_fault_terminates. Qed.
+Print Assumptions C10_stop_error_cancels.
 
 (* never success for an incomplete file: the success signal of a file exists only after the
    acknowledgement stage handled the final acknowledgement *)
